@@ -334,7 +334,7 @@ PROPS = {
                      "time.Now() readings inside a pass are a parameter (wall : Int -> Int) of the model and of the theorems",
                      "the syncCount bookkeeping points the client writes to its own node are ignored"],
         "assumptions": [],
-        "partial": "proved: a pass never loses or reverts a write on either side (any tree, any hashes); where the pass performs the exchange for a node, both stores hold the newest point per identity afterwards (on the store model itself); an agreed node is left alone; and for two stores that hold the same nodes below a node n (forest-shaped, nothing missing on either side), ONE pass makes the node points of n and of every node below it agree, provided the hash comparison is faithful on the states that follow (equal hashes only over agreeing subtrees) — c02_pass_converges_where_hash_is_faithful, with c02_pass_is_local (nothing outside the subtree is touched, no edge inserted). Faithfulness is a hypothesis because it is false in general (two open findings: changes that cancel in the XOR hash): the theorem says that an equal-hash comparison is the ONLY way a difference survives a pass over equal trees. Not proved: the same for edge points, and for trees where a node is missing on one side (transfer of missing nodes is covered by c02_no_write_lost and the correspondence run). The loop around the pass is proved to run a pass at every (re)connection and periodically while the link is reported up, to forward local writes exactly then, and to keep a reconnection pending (c02_loop_*); the downward real-time path is covered by the end-to-end cases only",
+        "partial": "proved: a pass never loses or reverts a write on either side (any tree, any hashes); where the pass performs the exchange for a node, both stores hold the newest point per identity afterwards (on the store model itself); an agreed node is left alone; and for two stores that hold the same nodes below a node n (forest-shaped, nothing missing on either side), ONE pass makes the points of n, of every node below it and of every edge between them agree, provided the hash comparison is faithful on the states that follow (equal hashes only over agreeing subtrees) — c02_pass_converges_where_hash_is_faithful, with c02_pass_is_local (nothing outside the subtree is touched, no edge inserted). Faithfulness is a hypothesis because it is false in general (two open findings: changes that cancel in the XOR hash): the theorem says that an equal-hash comparison is the ONLY way a difference survives a pass over equal trees. Not proved: the same for trees where a node is missing on one side (transfer of missing nodes is covered by c02_no_write_lost and the correspondence run). The loop around the pass is proved to run a pass at every (re)connection and periodically while the link is reported up, to forward local writes exactly then, and to keep a reconnection pending (c02_loop_*); the downward real-time path is covered by the end-to-end cases only",
     },
     "C04": {
         "required_theorems": ["c04_recovered_consistent", "c04_all_or_nothing", "c04_acked_not_lost", "c04_batch_present", "gen_tx_pinned", "gen_pragmas_pinned"],
